@@ -299,6 +299,9 @@ func c09Gen(rt *rapid.T) *hist.Case {
 				// success code: a PUBREC carrying it continues the exchange like reason 0
 				a.Reason = pick(rt, "reason", []byte{0x80, 0x83, 0x97, 0x10, 0x10})
 			}
+			// the connection is reset right behind the acknowledgement: the broker processes it on a connection it can
+			// no longer write to (seeded change C09-f: PUBREC handling that gives up when the PUBREL cannot be written)
+			a.ThenDrop = rapid.IntRange(0, 5).Draw(rt, "ack-then-drop") == 0
 			return a
 		case 7:
 			return hist.Action{Kind: pick(rt, "how", []string{"drop", "close"}), Client: 0}
@@ -345,7 +348,7 @@ func c09Gen(rt *rapid.T) *hist.Case {
 }
 
 func TestC09(t *testing.T) {
-	r := evid.New("C09", "rapid: a subscriber with a persistent session (v3.1/v3.1.1 clean session 0, v5 expiry>0; receive maximum absent or 1-2) on a QoS 1/2 subscription acknowledges by hand in generated order and stage (PUBACK; PUBREC without PUBCOMP; nothing), is dropped, closed, disconnected, taken over and reconnects with clean start 0 or 1, while a publisher sends QoS 1/2 messages also when the subscriber is offline; in a quarter of the histories a resuming CONNECT is held between disconnecting the old connection and taking the session over while another message is published (verif schedule point); in some histories a third client's delayed QoS 1 will is published by the will housekeeping (virtual time) and the in-flight housekeeping runs afterwards; oracle: a model map tag -> {packet id, stage} built from the wire; at every CONNACK with session present each outstanding entry must be resent in that step (PUBLISH with the same identifier, DUP if sent before on another connection; PUBREL instead once the client sent PUBREC), nothing acknowledged ever reappears, nothing is resent after clean start; non-trivial = a resumed connect with >=1 outstanding entry; distinct by (history, step)")
+	r := evid.New("C09", "rapid: a subscriber with a persistent session (v3.1/v3.1.1 clean session 0, v5 expiry>0; receive maximum absent or 1-2) on a QoS 1/2 subscription acknowledges by hand in generated order and stage (PUBACK; PUBREC without PUBCOMP; nothing; one acknowledgement in six is followed at once by a connection reset, so that the broker processes it on a dead connection), is dropped, closed, disconnected, taken over and reconnects with clean start 0 or 1, while a publisher sends QoS 1/2 messages also when the subscriber is offline; in a quarter of the histories a resuming CONNECT is held between disconnecting the old connection and taking the session over while another message is published (verif schedule point); in some histories a third client's delayed QoS 1 will is published by the will housekeeping (virtual time) and the in-flight housekeeping runs afterwards; oracle: a model map tag -> {packet id, stage} built from the wire; at every CONNACK with session present each outstanding entry must be resent in that step (PUBLISH with the same identifier, DUP if sent before on another connection; PUBREL instead once the client sent PUBREC), nothing acknowledged ever reappears, nothing is resent after clean start; non-trivial = a resumed connect with >=1 outstanding entry; distinct by (history, step)")
 	defer r.Finish(t)
 	if evid.ReplayMode() {
 		evid.Replay(t, r, replayPath(), c09Check)
